@@ -313,6 +313,7 @@ type State struct {
 	storeLog  *storeLog
 	concreteAlloc bool
 	loopEntry map[*ssa.BasicBlock]*State
+	entryNext T
 }
 
 func (s *State) clone() *State {
@@ -322,7 +323,7 @@ func (s *State) clone() *State {
 		ghost: make(map[string]T, len(s.ghost)), ev: s.ev, next: s.next,
 		defers: append([]deferred{}, s.defers...), cut: make(map[*ssa.BasicBlock]bool, len(s.cut)),
 		closures: make(map[string]*FnVal, len(s.closures)), panicking: s.panicking, recovered: s.recovered,
-		prevBlock: s.prevBlock, modHeaps: make(map[string]bool, len(s.modHeaps)), storeLog: s.storeLog, concreteAlloc: s.concreteAlloc, loopEntry: s.loopEntry,
+		prevBlock: s.prevBlock, modHeaps: make(map[string]bool, len(s.modHeaps)), storeLog: s.storeLog, concreteAlloc: s.concreteAlloc, loopEntry: s.loopEntry, entryNext: s.entryNext,
 	}
 	for k, v := range s.vals {
 		n.vals[k] = v
@@ -355,7 +356,7 @@ func (s *State) clone() *State {
 func (s *State) snapshot() *State {
 	n := &State{heaps: make(map[string]T, len(s.heaps)), ghost: make(map[string]T, len(s.ghost)),
 		globals: make(map[*ssa.Global]T, len(s.globals)), cells: make(map[*ssa.Alloc]T, len(s.cells)), next: s.next, ev: s.ev,
-		closures: s.closures}
+		closures: s.closures, entryNext: s.entryNext}
 	for k, v := range s.heaps {
 		n.heaps[k] = v
 	}
@@ -594,6 +595,12 @@ func (s *State) load(a *Addr) T {
 			if a.glob.Pkg != nil && !strings.HasPrefix(a.glob.Pkg.Pkg.Path(), modulePath) && base.Sort == SIface && types.Identical(a.rootT, types.Universe.Lookup("error").Type()) {
 				// sentinel errors of external packages (io.EOF, rsa.ErrVerification, ...) are non-nil
 				s.assume(not(eq(ifaceTag(base), mkInt(0))))
+			}
+			if base.Sort == SIface && s.entryNext.S != "" {
+				s.assume(app(SBool, "<", ifacePl(base), s.entryNext))
+			}
+			if isPointerLike(a.rootT) && s.entryNext.S != "" {
+				s.assume(app(SBool, "<", base, s.entryNext))
 			}
 		}
 		return project(base, a.path)
